@@ -352,6 +352,18 @@ def symbolic_state_after(func: ast.AST, selfname: str = "self"):
                 attrs[u(t)] = v
                 continue
             return None
+        if isinstance(s, ast.AugAssign) and isinstance(s.target, (ast.Name, ast.Attribute)):
+            # value-wise `t op= e` is `t = t op e`; whether the write is in place is the ownership rules' question (C20), not this one's
+            t = s.target
+            load = ast.Name(id=t.id, ctx=ast.Load()) if isinstance(t, ast.Name) else ast.Attribute(value=t.value, attr=t.attr, ctx=ast.Load())
+            v = cur(ast.BinOp(left=load, op=s.op, right=s.value))
+            if isinstance(t, ast.Name):
+                env[t.id] = v
+                continue
+            if isinstance(t.value, ast.Name) and t.value.id == selfname:
+                attrs[u(t)] = v
+                continue
+            return None
         if isinstance(s, ast.Return):
             break
         return None
